@@ -586,6 +586,66 @@ pub fn enumerate(bases: &[Base], ctx: &Ctx, want: &dyn Fn(u64) -> bool, f: &mut 
                 }
             }
         }
+        // (h) VALID files with large amounts: one part beyond 1024 / 4096 vertices, thousands of
+        //     two-vertex parts; nothing is forged, every stage of the decoder sees the amount
+        for &t in &[3, 5, 8, 13, 15, 18, 23, 25, 28, 31] {
+            let mut shapes: Vec<(usize, usize)> = vec![(1, 1025), (1, 4097)];
+            if !gen::is_multipoint(t) {
+                shapes.push((3000, 2));
+                shapes.push((257, 9));
+            }
+            if thorough {
+                shapes.push((1, 65_537));
+            }
+            for (parts, len) in shapes {
+                for with_shx in [false, true] {
+                    case!({
+                        let mut r = crate::rng::Rng::new(t as u64 * 7919 + parts as u64 * 31 + len as u64);
+                        let small = Cfg::plain(1, 2);
+                        let big = gen::shape_exact(t, &mut r, &small, parts, len);
+                        let v = vec![gen::shape(t, &mut r, &small), big, gen::shape(t, &mut r, &small)];
+                        let (shp, shx) = crate::shapes::write_all_mem(&v, true).expect("harness: writing a large valid file failed");
+                        Input { shp, shx: if with_shx { Some(shx) } else { None }, desc: format!("valid file, t{}: a shape of {} part(s) x {} vertices between two small ones, shx={}", t, parts, len, with_shx), class: "h:valid-large-amounts" }
+                    });
+                }
+            }
+        }
+        // (e'') a forged PART count that record length and header length vouch for: 2^k parts, no points
+        for &t in &[3, 5, 13, 15, 23, 25, 31] {
+            for k in [14u32, 18, 22, 26] {
+                case!({
+                    let nparts: i64 = 1i64 << k;
+                    let kinds: i64 = if t == 31 { 4 * nparts } else { 0 };
+                    let ranges: i64 = match t {
+                        3 | 5 => 0,
+                        23 | 25 => 16,
+                        _ => 32,
+                    };
+                    let content: i64 = 4 + 32 + 8 + 4 * nparts + kinds + ranges;
+                    let mut f = vec![0u8; 100];
+                    put(&mut f, 0, 9994, true);
+                    put(&mut f, 28, 1000, false);
+                    put(&mut f, 32, t, false);
+                    put(&mut f, 24, ((100 + 8 + content) / 2).min(i32::MAX as i64) as i32, true);
+                    f.extend_from_slice(&1i32.to_be_bytes());
+                    f.extend_from_slice(&((content / 2).min(i32::MAX as i64) as i32).to_be_bytes());
+                    f.extend_from_slice(&t.to_le_bytes());
+                    f.extend_from_slice(&[0u8; 32]);
+                    f.extend_from_slice(&(nparts as i32).to_le_bytes());
+                    f.extend_from_slice(&0i32.to_le_bytes());
+                    f.extend_from_slice(&[0u8; 8]);
+                    Input { shp: f, shx: None, desc: format!("t{} declares 2^{} parts and no points; record length and header length agree with that, no part offset is present", t, k), class: "e:consistent-but-unbacked" }
+                });
+            }
+        }
+        // (f') more than 2^16 points really present behind a much larger declared count
+        for &t in &[3, 18] {
+            for &real in &[65_537usize, 70_000] {
+                case!({
+                    Input { shp: partially_backed(t, 26, real, 0), shx: None, desc: format!("t{} declares 2^26 points, {} really present", t, real), class: "f:partially-backed-counts" }
+                });
+            }
+        }
     }
     idx
 }
@@ -599,6 +659,8 @@ pub struct Finding {
 
 struct Exerciser<'a> {
     inp: &'a Input,
+    /// directory for the inputs that are also read by path
+    dir: Option<String>,
     bound_items: usize,
     bound_bytes: u64,
     findings: Vec<Finding>,
@@ -658,6 +720,10 @@ impl<'a> Exerciser<'a> {
         };
         let mut k = 0usize;
         loop {
+            // the hint is part of the iterator's surface: asking for it must not panic either
+            if self.call(&format!("{}::size_hint", label), || it.size_hint()).is_none() {
+                break;
+            }
             let step = self.call(&format!("{}::next", label), || it.next());
             match step {
                 None => break, // panicked; recorded
@@ -682,10 +748,12 @@ impl<'a> Exerciser<'a> {
             for i in 0..upto {
                 self.call("read_nth_shape", || rd.read_nth_shape(i).map(|r| r.is_ok()));
             }
-            for i in [0usize, 1, count.saturating_sub(1), count, count + 1] {
+            for i in [0usize, 1, count.saturating_sub(1), count, count + 1, count + 1000, usize::MAX] {
                 self.call("seek", || rd.seek(i).is_ok());
-                if i == 1 {
+                self.call("iter_shapes(after seek)::size_hint", || rd.iter_shapes().size_hint());
+                if i <= 1 || i > count {
                     self.call("iter_shapes(after seek)::create+next", || rd.iter_shapes().next().map(|r| r.is_ok()));
+                    self.call("iter_shapes(after seek)::skip(1)+next", || rd.iter_shapes().skip(1).next().map(|r| r.is_ok()));
                 }
             }
             self.iterate::<Shape>(&mut rd, "iter_shapes(second)");
@@ -727,6 +795,41 @@ impl<'a> Exerciser<'a> {
                     for i in 0..3usize {
                         for_type!(t, S => { self.call("read_nth_shape_as(own type)", || rd.read_nth_shape_as::<S>(i).map(|r| r.is_ok())); });
                     }
+                }
+            }
+        }
+        // the path-based constructors and one-liners on the same bytes (every 16th input: the files
+        // are written next to the worker's output)
+        if self.which_typed % 16 == 5 && !cfg!(miri) {
+            if let Some(dir) = &self.dir {
+                let base = format!("{}/hostile", dir);
+                let shp_path = format!("{}.shp", base);
+                let shx_path = format!("{}.shx", base);
+                if std::fs::write(&shp_path, &self.inp.shp).is_ok() {
+                    match &self.inp.shx {
+                        Some(x) => {
+                            let _ = std::fs::write(&shx_path, x);
+                        }
+                        None => {
+                            let _ = std::fs::remove_file(&shx_path);
+                        }
+                    }
+                    let bound = self.bound_items;
+                    let p = shp_path.clone();
+                    self.call("from_path+iter", move || {
+                        let mut rd = ShapeReader::from_path(&p).ok()?;
+                        let mut k = 0usize;
+                        for item in rd.iter_shapes() {
+                            let _ = item;
+                            k += 1;
+                            if k > bound {
+                                panic!("harness-observed: from_path iteration exceeds the item bound");
+                            }
+                        }
+                        Some(k)
+                    });
+                    let p = shp_path.clone();
+                    self.call("read_shapes(path)", move || shapefile::read_shapes(&p).map(|v| v.len()).ok());
                 }
             }
         }
@@ -772,9 +875,9 @@ fn valid_dbf() -> Vec<u8> {
     .clone()
 }
 
-pub fn exercise(inp: &Input, which_typed: usize) -> (Vec<Finding>, u64, u64) {
+pub fn exercise(inp: &Input, which_typed: usize, dir: Option<String>) -> (Vec<Finding>, u64, u64) {
     let inlen = inp.shp.len() + inp.shx.as_ref().map(|x| x.len()).unwrap_or(0);
-    let mut ex = Exerciser { inp, bound_items: inlen + 2, bound_bytes: 64 * inlen as u64 + 64 * 1024, findings: vec![], calls: 0, worst_ratio_x100: 0, which_typed };
+    let mut ex = Exerciser { inp, dir, bound_items: inlen + 2, bound_bytes: 64 * inlen as u64 + 64 * 1024, findings: vec![], calls: 0, worst_ratio_x100: 0, which_typed };
     ex.run();
     (ex.findings, ex.calls, ex.worst_ratio_x100)
 }
@@ -809,7 +912,7 @@ pub fn worker(ctx: &Ctx) -> Report {
             let _ = p.seek(SeekFrom::Start(0));
             let _ = p.write_all(format!("{:<20}", i).as_bytes());
         }
-        let (findings, calls, ratio) = exercise(&inp, i as usize);
+        let (findings, calls, ratio) = exercise(&inp, i as usize, if cfg!(miri) { None } else { Some(ctx.out.clone()) });
         rep.eval();
         rep.class(inp.class);
         rep.count("reader_calls_monitored", calls);
